@@ -213,6 +213,7 @@ pub fn run(ctx: &Ctx, acc: &mut Acc) {
         "C06" => super::matrix::run(&Ctx { prop: ctx.prop.clone(), tier: ctx.tier, seed: ctx.seed, shard: ctx.shard, nshards: ctx.nshards, budget: ctx.budget / 2, start: ctx.start }, acc, 0),
         "C07" => super::matrix::run(&Ctx { prop: ctx.prop.clone(), tier: ctx.tier, seed: ctx.seed, shard: ctx.shard, nshards: ctx.nshards, budget: ctx.budget / 2, start: ctx.start }, acc, 1),
         "C08" => super::matrix::run(&Ctx { prop: ctx.prop.clone(), tier: ctx.tier, seed: ctx.seed, shard: ctx.shard, nshards: ctx.nshards, budget: ctx.budget / 2, start: ctx.start }, acc, 2),
+        "C10" => super::loops::run(&Ctx { prop: ctx.prop.clone(), tier: ctx.tier, seed: ctx.seed, shard: ctx.shard, nshards: ctx.nshards, budget: ctx.budget * 2 / 3, start: ctx.start }, acc, &isas),
         _ => {}
     }
     let cfg = EmuConfig::default();
@@ -263,6 +264,11 @@ pub fn run(ctx: &Ctx, acc: &mut Acc) {
 }
 
 pub fn replay(prop: &str, payload: &J, acc: &mut Acc) {
+    if payload.get("kind").and_then(|k| k.as_str()) == Some("loop-family") {
+        let ctx = Ctx { prop: "C10".into(), tier: super::Tier::Quick, seed: 1, shard: 0, nshards: 1, budget: std::time::Duration::from_secs(600), start: std::time::Instant::now() };
+        super::loops::run(&ctx, acc, &isas_for("C10"));
+        return;
+    }
     if payload.get("kind").and_then(|k| k.as_str()) == Some("placement") {
         super::matrix::replay(payload, acc);
         return;
